@@ -63,7 +63,7 @@ theorem innerStep_fields2 (a : ACfg) (s : St) (e : Sess.Ev) :
 
 /-- who may start waiting for the close event, and in which program -/
 def CloseCaller (a : ACfg) (s : St) (t : ATid) (p : AProg) : Prop :=
-  (t = .D2 ∧ s.astatus .D2 = .ready ∧ ∃ v, p = .handlerClose v ∧ a.msgBeh v = .close) ∨
+  (t = .D2 ∧ s.astatus .D2 = .ready ∧ ∃ v, p = .handlerClose v ∧ (a.msgBeh v = .close ∨ ∃ k, a.msgBeh v = .awaitClose k)) ∨
   (t = .D2 ∧ s.astatus .D2 = .cancelled ∧ ∃ v, p = .cleanupClose v) ∨
   (∃ u, t = .W u ∧ s.astatus (.W u) = .absent ∧ p = .closeWait u ∧ s.built = true)
 
@@ -158,7 +158,12 @@ theorem dispHandle2_K {a : ACfg} {s : St} (ib : InvB2 a s) (is : InvS a s) (v : 
         InvS.of_core (s := s) rfl is⟩
     · rename_i hg
       simp only [Bool.or_eq_true, not_or, Bool.not_eq_true, Option.isSome_eq_false_iff, Option.isNone_iff_eq_none] at hg
-      exact startClose_K ib is _ _ hg.1 hg.2 (Or.inl ⟨rfl, hD, v, rfl, hbeh⟩)
+      exact startClose_K ib is _ _ hg.1 hg.2 (Or.inl ⟨rfl, hD, v, rfl, Or.inl hbeh⟩)
+  · rename_i k hk
+    refine ⟨InvB2.of_core (s := s) rfl ib, ?_⟩
+    obtain ⟨nb, we, wv, ty, wq, d2, cc, hc', can, v2, dn, vn, da, vs⟩ := is
+    refine ⟨?_, ?_, ?_, ?_, ?_, ?_, ?_, ?_, ?_, ?_, ?_, ?_, ?_, ?_⟩ <;> simp only [St.setP] <;>
+      grind [midStage, lateStage, alive2, allowed2]
   · rename_i k hk
     refine ⟨InvB2.of_core (s := s) rfl ib, ?_⟩
     obtain ⟨nb, we, wv, ty, wq, d2, cc, hc', can, v2, dn, vn, da, vs⟩ := is
@@ -198,6 +203,22 @@ macro "ksolve" : tactic => `(tactic|
     first
       | grind [midStage, lateStage, alive2]
       | grind [midStage, lateStage, alive2, allowed2]))
+
+theorem handlerDone_K {a : ACfg} {s : St} (ib : InvB2 a s) (is : InvS a s) (v : Nat) (hD : s.astatus .D2 = .ready) :
+    InvB2 a (handlerDone a s .D2 v) ∧ InvS a (handlerDone a s .D2 v) := by
+  unfold handlerDone
+  split
+  · rename_i k hbeh
+    split
+    · refine ⟨InvB2.of_core (s := (s.emit2 (.closeRet (.handler v) .ok)).emit2 (.msgExit v)) rfl ((ib.emit2 rfl).emit2 rfl), ?_⟩
+      obtain ⟨nb, we, wv, ty, wq, d2, cc, hc', can, v2, dn, vn, da, vs⟩ := is
+      ksolve
+    · rename_i hg
+      simp only [Bool.or_eq_true, not_or, Bool.not_eq_true, Option.isSome_eq_false_iff, Option.isNone_iff_eq_none] at hg
+      exact startClose_K ib is _ _ hg.1 hg.2 (Or.inl ⟨rfl, hD, v, rfl, Or.inr ⟨k, hbeh⟩⟩)
+  · refine ⟨InvB2.of_core (s := s.emit2 (.msgExit v)) rfl (ib.emit2 rfl), ?_⟩
+    obtain ⟨nb, we, wv, ty, wq, d2, cc, hc', can, v2, dn, vn, da, vs⟩ := is
+    ksolve
 
 theorem allowed2_D2 {t : ATid} {p : AProg} (h : allowed2 t p = true)
     (hp : p = .dispLoop ∨ (∃ v k, p = .handler v k) ∨ (∃ v, p = .handlerClose v) ∨ (∃ v k, p = .handlerCC v k) ∨
@@ -287,9 +308,7 @@ theorem stepRun2_K {a : ACfg} {s : St} (ib : InvB2 a s) (is : InvS a s) (t : ATi
       rw [hp] at hty
       obtain rfl := allowed2_D2 hty (Or.inr (Or.inl ⟨v, k, rfl⟩))
       split
-      · refine ⟨InvB2.of_core (s := s0.emit2 (.msgExit v)) rfl (ib0.emit2 rfl), ?_⟩
-        obtain ⟨nb, we, wv, ty, wq, d2, cc, hc', can, v2, dn, vn, da, vs⟩ := is0
-        ksolve
+      · exact handlerDone_K ib0 is0 v hst
       · refine ⟨InvB2.of_core (s := s0) rfl ib0, ?_⟩
         obtain ⟨nb, we, wv, ty, wq, d2, cc, hc', can, v2, dn, vn, da, vs⟩ := is0
         ksolve
